@@ -213,25 +213,23 @@ theorem prefixLaw_withScope (env : Env) (scope : Str) {g : Gen} (hg : PrefixLaw 
 
 theorem prefixLaw_kwRef (env : Env) {rec : Rec} (hrec : ∀ i s, PrefixLaw (rec i s))
     (ref inst : Json) : PrefixLaw (kwRef env rec ref inst) := by
+  refine kwRef_cases (P := PrefixLaw) (fun {g h} hg hh => ?_) (fun r => ?_) (prefixLaw_stopG _) (prefixLaw_stopG _) ref
+  · refine PrefixLaw.of_pointwise (fun st => ?_)
+    by_cases e : st.top.isEmpty
+    · exact ⟨g, st, hg, fun b => by unfold ifTopEmpty; rw [if_pos e]⟩
+    · exact ⟨h, st, hh, fun b => by unfold ifTopEmpty; rw [if_neg e]⟩
   apply PrefixLaw.of_pointwise
   intro st
-  cases ref with
-  | str r =>
-    rcases hr : resolve env r st with ⟨res, st1⟩
-    cases res with
-    | ok p =>
-      obtain ⟨url, target⟩ := p
-      exact ⟨withScope env url (rec inst target), st1, prefixLaw_withScope env url (hrec inst target),
-        fun b => by unfold kwRef; simp only [hr]⟩
-    | raise e =>
-      exact ⟨stopG (.raised e), st1, prefixLaw_stopG _, fun b => by unfold kwRef; simp only [hr]; rfl⟩
-    | miss q =>
-      exact ⟨stopG (.miss q), st1, prefixLaw_stopG _, fun b => by unfold kwRef; simp only [hr]; rfl⟩
-  | null => exact ⟨stopG (.raised (.crash "TypeError")), st, prefixLaw_stopG _, fun b => rfl⟩
-  | bool _ => exact ⟨stopG (.raised (.crash "TypeError")), st, prefixLaw_stopG _, fun b => rfl⟩
-  | num _ => exact ⟨stopG (.raised (.crash "TypeError")), st, prefixLaw_stopG _, fun b => rfl⟩
-  | arr _ => exact ⟨stopG (.raised (.crash "TypeError")), st, prefixLaw_stopG _, fun b => rfl⟩
-  | obj _ => exact ⟨stopG (.raised (.crash "TypeError")), st, prefixLaw_stopG _, fun b => rfl⟩
+  rcases hr : resolve env r st with ⟨res, st1⟩
+  cases res with
+  | ok p =>
+    obtain ⟨url, target⟩ := p
+    exact ⟨withScope env url (rec inst target), st1, prefixLaw_withScope env url (hrec inst target),
+      fun b => by rw [kwRef_str]; simp only [hr]⟩
+  | raise e =>
+    exact ⟨stopG (.raised e), st1, prefixLaw_stopG _, fun b => by rw [kwRef_str]; simp only [hr]; rfl⟩
+  | miss q =>
+    exact ⟨stopG (.miss q), st1, prefixLaw_stopG _, fun b => by rw [kwRef_str]; simp only [hr]; rfl⟩
 
 theorem prefixLawClosed (env : Env) : Closed env PrefixLaw where
   emit := prefixLaw_emit
@@ -290,25 +288,23 @@ theorem noBudget_withScope (env : Env) (scope : Str) {g : Gen} (hg : NoBudget g)
 
 theorem noBudget_kwRef (env : Env) {rec : Rec} (hrec : ∀ i s, NoBudget (rec i s))
     (ref inst : Json) : NoBudget (kwRef env rec ref inst) := by
+  refine kwRef_cases (P := NoBudget) (fun {g h} hg hh => ?_) (fun r => ?_) (noBudget_stopG nofun) (noBudget_stopG nofun) ref
+  · refine NoBudget.of_pointwise (fun st => ?_)
+    by_cases e : st.top.isEmpty
+    · exact ⟨g, st, hg, fun b => by unfold ifTopEmpty; rw [if_pos e]⟩
+    · exact ⟨h, st, hh, fun b => by unfold ifTopEmpty; rw [if_neg e]⟩
   apply NoBudget.of_pointwise
   intro st
-  cases ref with
-  | str r =>
-    rcases hr : resolve env r st with ⟨res, st1⟩
-    cases res with
-    | ok p =>
-      obtain ⟨url, target⟩ := p
-      exact ⟨withScope env url (rec inst target), st1, noBudget_withScope env url (hrec inst target),
-        fun b => by unfold kwRef; simp only [hr]⟩
-    | raise e =>
-      exact ⟨stopG (.raised e), st1, noBudget_stopG nofun, fun b => by unfold kwRef; simp only [hr]; rfl⟩
-    | miss q =>
-      exact ⟨stopG (.miss q), st1, noBudget_stopG nofun, fun b => by unfold kwRef; simp only [hr]; rfl⟩
-  | null => exact ⟨stopG (.raised (.crash "TypeError")), st, noBudget_stopG nofun, fun b => rfl⟩
-  | bool _ => exact ⟨stopG (.raised (.crash "TypeError")), st, noBudget_stopG nofun, fun b => rfl⟩
-  | num _ => exact ⟨stopG (.raised (.crash "TypeError")), st, noBudget_stopG nofun, fun b => rfl⟩
-  | arr _ => exact ⟨stopG (.raised (.crash "TypeError")), st, noBudget_stopG nofun, fun b => rfl⟩
-  | obj _ => exact ⟨stopG (.raised (.crash "TypeError")), st, noBudget_stopG nofun, fun b => rfl⟩
+  rcases hr : resolve env r st with ⟨res, st1⟩
+  cases res with
+  | ok p =>
+    obtain ⟨url, target⟩ := p
+    exact ⟨withScope env url (rec inst target), st1, noBudget_withScope env url (hrec inst target),
+      fun b => by rw [kwRef_str]; simp only [hr]⟩
+  | raise e =>
+    exact ⟨stopG (.raised e), st1, noBudget_stopG nofun, fun b => by rw [kwRef_str]; simp only [hr]; rfl⟩
+  | miss q =>
+    exact ⟨stopG (.miss q), st1, noBudget_stopG nofun, fun b => by rw [kwRef_str]; simp only [hr]; rfl⟩
 
 /-! ### `Lawful`: one lemma per combinator -/
 
